@@ -129,8 +129,10 @@ def run_versions(ch):
     symnames = symnames[:nsym] if nsym else []
     soffs = [st.add(n) for n in symnames]
     vvals = []
+    # plain values name versions that exist (local, global, then every defined / required index in turn), as a linker writes them
+    carried_idx = [0, 1] + [d['ndx'] for d in defs] + [a['other'] for n in needs for a in n['aux']]
     for i in range(nsym):
-        v = (0, 1, 2, 3, 2, 5)[i % 6]
+        v = carried_idx[i % len(carried_idx)] & 0x7fff
         if hidden == 'hidden_bit' and i % 2:
             v |= 0x8000
         if hidden == 'reserved':
@@ -143,9 +145,14 @@ def run_versions(ch):
     vsec = img.add(eg.Sec('.gnu.version', 0x6fffffff, data=b''.join(struct.pack(o + 'H', v) for v in vvals), flags=2, link=symsec.index, entsize=ventsize, align=2, addr=0x430000))
     dsec = img.add(eg.Sec('.gnu.version_d', 0x6ffffffd, data=bytes(dbuf), flags=2, link=strsec.index, info=ndef, align=4, file_align=ch.pick('file_align', [4, 1]), addr=0x440000))
     rsec = img.add(eg.Sec('.gnu.version_r', 0x6ffffffe, data=bytes(nbuf), flags=2, link=strsec.index, info=nneed, align=4, addr=0x450000))
+    # the dynamic section that announces the tables (GNU readelf reads the version symbols through DT_VERSYM)
+    dtags = [(5, 0x410000), (6, 0x420000), (10, len(st.bytes())), (11, f.symsize), (0x6ffffff0, 0x430000), (0x6ffffffc, 0x440000), (0x6ffffffd, ndef), (0x6ffffffe, 0x450000),
+             (0x6fffffff, nneed), (0, 0)]
+    dynsec = img.add(eg.Sec('.dynamic', 6, data=b''.join(f.dyn(t, v) for t, v in dtags), flags=3, link=strsec.index, entsize=f.dynsize, align=8, addr=0x460000))
     img.add_shstrtab()
-    for s_ in (strsec, symsec, vsec, dsec, rsec):      # every allocated table is mapped (one PT_LOAD each: biases differ), as in a linked object
+    for s_ in (strsec, symsec, vsec, dsec, rsec, dynsec):      # every allocated table is mapped (one PT_LOAD each: biases differ), as in a linked object
         img.seg(eg.Seg(1, 4, of=s_, align=1))
+    img.seg(eg.Seg(2, 6, of=dynsec, align=8))
     data = img.encode()
 
     from elftools.elf.elffile import ELFFile
